@@ -415,6 +415,9 @@ var redirects = map[string]string{
 	"sort.Ints":                        "sortInts",
 	"sort.Sort":                        "sortSort",
 	"sort.Stable":                      "sortSort",
+	"(*sync.Map).Load":                 "syncMapLoad",
+	"(*sync.Map).Store":                "syncMapStore",
+	"(*sync.Map).LoadOrStore":          "syncMapLoadOrStore",
 }
 
 // initSkip lists functions that lenient init does not execute (reflection-driven
@@ -605,9 +608,27 @@ func init() {
 	opaqueStr := func(w *Worker, st *State, f *Frame, x *ssa.Call, fv FuncV, a []Value) (Value, bool) {
 		return ret(Opaque{"formatted text (" + fv.Fn.String() + ")"})
 	}
-	for _, n := range []string{"fmt.Sprintf", "fmt.Sprint", "fmt.Sprintln", "strconv.Quote", "fmt.Appendf"} {
+	for _, n := range []string{"fmt.Sprint", "fmt.Sprintln", "strconv.Quote", "fmt.Appendf"} {
 		regIntrinsic(n, opaqueStr)
 	}
+	regIntrinsic("fmt.Sprintf", func(w *Worker, st *State, f *Frame, x *ssa.Call, fv FuncV, a []Value) (Value, bool) {
+		// exact model of the one formatting whose text is data: Sprintf(`\%03o`, byte) (defval.marshalBytes)
+		if fs, ok := a[0].(StrV); ok {
+			if cs, ok := st.concreteString(fs); ok && cs == `\%03o` {
+				if args, ok := a[1].(SliceV); ok && args.Len == 1 {
+					if iv, ok := st.load(args.P, types.NewInterfaceType(nil, nil)).(IfaceV); ok {
+						if c, ok := iv.D.(*Term); ok && c.W == 8 {
+							d := func(sh uint64, mask uint64) *Term {
+								return Add(Const(8, '0'), And(LShr(c, Const(8, sh)), Const(8, mask)))
+							}
+							return ret(st.newString([]*Term{Const(8, '\\'), d(6, 3), d(3, 7), d(0, 7)}))
+						}
+					}
+				}
+			}
+		}
+		return ret(Opaque{"formatted text (fmt.Sprintf)"})
+	})
 	regIntrinsic("fmt.Errorf", func(w *Worker, st *State, f *Frame, x *ssa.Call, fv FuncV, a []Value) (Value, bool) {
 		o := st.heap.alloc(16, nil, "fmt.Errorf")
 		return ret(IfaceV{T: fmtErrorType(w.e.prog), D: Ptr{Obj: o.ID}})
